@@ -247,6 +247,32 @@ __attribute__((no_sanitize("address", "undefined"))) static void gen3(rng &r, bo
         E("L:strlwr " + LB('A', 5, L, 0, 119, {{0, 'Q'}, {65535, 'A'}, {65536, 'Z'}, {L - 2, 'M'}, {L - 1, 0}}) + " A+0");
         E("L:strupr " + LB('A', 5, L, 0, 87, {{0, 'q'}, {65535, 'a'}, {65536, 'z'}, {L - 2, 'm'}, {L - 1, 0}}) + " A+0");
     }
+    // ---- round 3b: counters of WORDS / of 4-word BLOCKS.  A 16-bit counter of n/8 words wraps at 512 KiB, one of
+    // n/32 blocks at 2 MiB (the 300 KiB inputs above are too short for either); the writers run the literal model
+    // in its linear-time form, so these sizes are affordable
+    for (size_t n : {(size_t)524288 + 37, (size_t)2097152 + 69})
+    {
+        bool big2 = n > 1000000; // the 2 MiB inputs cost about a second each in the driver: one in the quick tier
+        std::string sn = N(n);
+        E("L:memcpy " + LB('A', 0, n, 0, 0) + " " + LB('B', 8, n, 7, 3) + " A+0 B+0 " + sn);   // the word path
+        if (!big2 || th)
+        {
+            E("L:memmove " + LB('A', 0, n + 64, 13, 5) + " A+0 A+64 " + sn);                  // forward overlap, through memcpy's word path
+            E("L:memmove " + LB('A', 8, n + 64, 13, 5) + " A+64 A+0 " + sn);                  // backward byte loop
+        }
+        if (!big2)
+        {
+            E("L:memset " + LB('A', 0, n, 5, 1) + " A+0 #90 " + sn);
+            E("L:strcpy " + LB('A', 0, n + 1, 0, 0) + " " + LB('B', 8, n + 1, 7, 3, {{n, 0}}) + " A+0 B+0");
+        }
+        if (!big2 && th)
+        {
+            E("L:strncpy " + LB('A', 0, n, 0, 0) + " " + LB('B', 8, 9, 7, 3, {{8, 0}}) + " A+0 B+0 " + sn);
+            E("L:memcmp " + LB('A', 0, n, 7, 3) + " " + LB('B', 8, n, 7, 3, {{n - 1, 0xff}}) + " A+0 B+0 " + sn);
+            E("L:strlen " + LB('A', 0, n + 1, 7, 3, {{n, 0}}) + " A+0");
+            E("L:memchr " + LB('A', 0, n, 0, 4, {{n - 1, 0xff}}) + " A+0 #255 " + sn);
+        }
+    }
 }
 
 // pure generation (no code under test runs here): not instrumenting it cuts the
